@@ -266,6 +266,15 @@ impl<'de> Deserialize<'de> for Outer {
     }
 }
 
+/// zero-sized payloads: a unit struct with a hand-written impl, PhantomData, an empty array
+#[derive(Debug, Clone, PartialEq)]
+pub struct UnitS;
+impl Serialize for UnitS {
+    fn serialize<S: Serializer>(&self, s: S) -> Result<S::Ok, S::Error> {
+        s.serialize_unit_struct("UnitS")
+    }
+}
+
 // ------------------------------------------------------------------ the runs
 fn live_blocks() -> usize {
     alloc::table().iter().filter(|r| r.live).count()
@@ -429,6 +438,11 @@ pub fn run(out_path: &str) {
     ser_case("Vec<u16>", &vec![1u16, 2, 3], &mut out);
     ser_case("Option<i8>", &Some(3i8), &mut out);
     ser_case("Outer", &outer, &mut out);
+    ser_case("UnitS (zero-sized)", &UnitS, &mut out);
+    ser_case("PhantomData<u8> (zero-sized)", &std::marker::PhantomData::<u8>, &mut out);
+    ser_case("[u32; 0] (zero-sized)", &[0u32; 0], &mut out);
+    ser_case("() (zero-sized)", &(), &mut out);
+    ser_case("((), UnitS)", &((), UnitS), &mut out);
     ser_case("Vec<Outer>", &vec![outer.clone(), outer.clone()], &mut out);
     use Tok::*;
     de_case::<u64>("u64", &[U64(42)], &mut out);
